@@ -1,4 +1,5 @@
 import LarkVerif.Indenter
+import LarkVerif.IndenterRef
 /-! # C18 — Indenter emits a balanced INDENT/DEDENT structure, independent of history -/
 namespace Props.C18
 open IndProto
@@ -20,6 +21,32 @@ theorem indent_iff (st : St) (indent top : Nat) (rest : List Nat) (hp : st.paren
     (h : indent > top) :
     handleNL st indent = .ok ([Ev.tok (.nl indent), Ev.indent], { st with levels := indent :: st.levels }) := by
   simp [handleNL, hp, hl, h]
+
+/-- **`handle_NL` is the reference algorithm of the Python language reference** (outside brackets): for every strictly decreasing stack containing 0
+    it raises exactly when the reference does, and otherwise emits the newline token, the prescribed number of INDENT / DEDENT tokens, and leaves
+    the prescribed stack (all larger levels popped, stated with filters and membership instead of a loop). -/
+theorem handle_nl_is_reference (st : St) (indent : Nat) (hp : st.paren = 0) (hd : Decr st.levels) (h0 : 0 ∈ st.levels) :
+    handleNL st indent =
+      match refLine st.levels indent with
+      | .error e => .error e
+      | .ok (i, d, lv) => .ok (Ev.tok (.nl indent) :: (List.replicate i Ev.indent ++ List.replicate d Ev.dedent), { st with levels := lv }) :=
+  handleNL_eq_ref st indent hp hd h0
+
+/-- the hypotheses hold in every reachable state: they hold initially and every token preserves them -/
+theorem stack_invariant_initially : Decr St.init.levels ∧ 0 ∈ St.init.levels := ⟨init_decr, by simp [St.init]⟩
+theorem stack_invariant_preserved (st st' : St) (t : Tok) (out : List Ev) (h : stepTok st t = .ok (out, st')) (hd : Decr st.levels) (h0 : 0 ∈ st.levels) :
+    Decr st'.levels ∧ 0 ∈ st'.levels := ⟨stepTok_decr st st' t out h hd, stepTok_zero st st' t out h hd h0⟩
+
+/-- **DedentError iff** the new indentation is not deeper than the current level and is not an open level -/
+theorem dedent_error_iff (levels : List Nat) (top : Nat) (rest : List Nat) (indent : Nat) (hl : levels = top :: rest) :
+    refLine levels indent = .error .dedentError ↔ (¬ indent > top ∧ indent ∉ levels) := by
+  subst hl
+  simp only [refLine]
+  by_cases h1 : indent > top
+  · simp [h1]
+  · by_cases h2 : indent ∈ top :: rest
+    · simp [h1, h2]
+    · simp [h1, h2]
 
 example : process St.init [.other 0, .nl 2, .other 0, .nl 4, .other 0, .nl 0, .other 1] =
     .ok [.tok (.other 0), .tok (.nl 2), .indent, .tok (.other 0), .tok (.nl 4), .indent, .tok (.other 0), .tok (.nl 0), .dedent, .dedent, .tok (.other 1)] := by rfl
